@@ -7,6 +7,7 @@
   greatest value (byte-lexicographic), and is the same for every permutation of the deliveries.
 -/
 import MainlineModel.Model.Api
+import MainlineModel.Gen.FacadeTwins
 import MainlineModel.Lemmas.IdLemmas
 namespace Mainline.Props.C16
 open Mainline Mainline.Api
@@ -235,5 +236,12 @@ theorem mostRecent_perm (xs ys : List Item) (hp : xs.Perm ys) : mostRecent xs = 
 /-- the witness of the defect repaired by the `fix:` commit: [seq 1, seq 2] now yields seq 2 -/
 example : (mostRecent [⟨1, [1]⟩, ⟨2, [2]⟩]).map (·.seq) = some 2 := by decide +kernel
 example : (mostRecent [⟨3, [1]⟩, ⟨3, [2]⟩, ⟨1, [9]⟩]).map (·.value) = some [2] := by decide +kernel
+
+
+/-- **T1 obligation — the two facades are twins.**  The correspondence streams drive the async facade
+    (`AsyncDht`); the sync facade (`Dht`) is covered through this obligation: method by method its body
+    equals the async one after normalisation (`.await`, `recv_async`, stream/iterator wrappers), as read
+    from the working tree by `tools/facade_twins.py` on every run. -/
+theorem facade_twins_agree : Mainline.Gen.facadeTwins.all (·.2) = true := by decide
 
 end Mainline.Props.C16
